@@ -366,6 +366,11 @@ pub fn build(id: &str, tier: &str, seed: u64, threads: usize) -> Option<Plan> {
         "C08" => {
             let ws: &[u16] = if q { &[1, 2, 3, 4, 5, 8] } else { &[1, 2, 3, 4, 5, 6, 7, 8, 16, 32] };
             let mut cfgs = grid(&[Role::Send], &[8, 512], ws, !q, false, 1 << 20);
+            // the same downloads started by an OACK handshake (the worker first waits for the ACK 0 that answers it)
+            cfgs.extend(grid(&[Role::Send], &[8], if q { &[1, 2, 4] } else { &[1, 2, 3, 4, 8] }, false, false, 1 << 20).into_iter().map(|mut c| {
+                c.hs = true;
+                c
+            }));
             cfgs.extend(grid(&[Role::Recv], &[8], ws, false, false, 1 << 20));
             for w in [65534u16, 65535] {
                 for len in [0u64, 8, 17, 40] {
